@@ -15,13 +15,21 @@ C17: every shipped platform resolves and pilots are sized to fit.
 4. every agent config `_prepare_pilot` wrote (platform's own SMT) is handed to
    the platform's real resource manager in a faked allocation: the agent must
    work with the figures the job requests (C17.AgentRMAgrees);
-5. the SizingBulk design model of `work()` is model checked; TLC chooses bulks
-   of 2-3 pilots over mixed platforms / schemas in every order and the bucket
-   whose submission fails; each is run through the real work() ->
-   _start_pilot_bulk -> _prepare_pilot (C17.SchemaOfPilot, C17.LaunchFailureLocal
-   and the sizing clauses);
+5. the SizingBulk design model of `work()` down to the launchers is model
+   checked; TLC chooses bulks of 1-3 pilots over mixed platforms / schemas in
+   every order, the pattern of equal / different pilot sizes, the launchers
+   installed (PSI/J + SAGA, SAGA only, PSI/J only) and the bucket whose
+   submission is refused; the cases (quick: one per class + a seeded sample,
+   thorough: a larger sample) are run through the real work() ->
+   _start_pilot_bulk -> _prepare_pilot -> launcher selection -> real
+   PilotLauncherPSIJ / PilotLauncherSAGA.launch_pilots on recording stand-ins
+   for psij / radical.saga (C17.SchemaOfPilot, C17.LaunchFailureLocal, the
+   sizing clauses, and per submitted job C17.JobSizedPerPilot,
+   C17.JobTermsPerPilot, C17.JobShipsOwnAgent, C17.JobPerPilot, C17.LauncherCan);
 6. the SizingTrace monitor validates all recorded events (code -> spec).
 '''
+
+import random
 
 from .. import tlc, tracecheck
 from ..core import Machinery
@@ -88,23 +96,37 @@ def mc_files(pairs, dom, plats, scope, devs=(), print_cases=False, invariants=No
     return {'MC.tla': mod, 'MC.cfg': cfg}
 
 
-BULK_INV  = ['TypeOK', 'InvSchemaOfPilot', 'InvAllPrepared', 'InvLaunchFailureLocal', 'InvOthersPending']
-BULK_DEVS = ['DevStaleSchema', 'DevFailAll']
-# preferred members of the mixed group (kept if the shipped configs still have them)
-MIXED = [('local.localhost', ''), ('ncar.cheyenne', 'ssh'), ('ncar.cheyenne', 'local'),
-         ('ncsa.delta', 'batch'), ('nioz.laplace', 'interactive'), ('tacc.frontera', '')]
+BULK_INV  = ['TypeOK', 'InvSchemaOfPilot', 'InvAllPrepared', 'InvLaunchFailureLocal', 'InvOthersPending',
+             'InvLauncherCan', 'InvJobPerPilot', 'InvJobSizedPerPilot', 'InvJobTermsPerPilot',
+             'InvJobShipsOwnAgent']
+BULK_DEVS = ['DevStaleSchema', 'DevFailAll', 'DevSpecFromFirstPilot', 'DevLauncherPerResource']
+# preferred members of the mixed group (kept if the shipped configs still have them): the first four
+# (quick tier) hold two schemas of one platform, an endpoint PSI/J cannot handle (plain ssh), fork,
+# a batch system reached through ssh
+MIXED = [('local.localhost', ''), ('local.localhost', 'ssh'), ('ncar.cheyenne', 'ssh'),
+         ('ncsa.delta', 'batch'), ('ncar.cheyenne', 'local'), ('nioz.laplace', 'interactive'),
+         ('tacc.frontera', '')]
+# the launchers the component holds (optional modules installed), in the order it asks them
+LSETS = [('PSI_J', 'SAGA'), ('SAGA',), ('PSI_J',)]
 
 
-def bulk_files(groups, schemas_of, sizes, devs=(), print_cases=False, invariants=None):
+def bulk_files(groups, schemas_of, sizes, scheme_of, devs=(), print_cases=False, invariants=None,
+               lsets=LSETS):
     plats = sorted(schemas_of)
     mod  = '---- MODULE MCB ----\nEXTENDS SizingBulk\n'
     mod += 'MCGroups == {%s}\n' % ', '.join(
         '{' + ', '.join('<<%s, %s>>' % (q(p), q(sc)) for p, sc in g) + '}' for g in groups)
     mod += 'MCSchemasOf == [p \\in %s |-> CASE %s]\n' % (
         tset(plats), ' [] '.join('p = %s -> %s' % (q(p), tset(schemas_of[p])) for p in plats))
+    choices = sorted(set(c for g in groups for c in g))
+    mod += 'MCSchemeOf == [c \\in UNION MCGroups |-> CASE %s]\n' % ' [] '.join(
+        'c = <<%s, %s>> -> %s' % (q(p), q(sc), tseq(scheme_of[(p, sc)])) for p, sc in choices)
+    mod += 'MCPsij == %s\n' % tset(R.PSIJ_EXECUTORS)
+    mod += 'MCLauncherSets == {%s}\n' % ', '.join(tseq(l) for l in lsets)
     mod += 'MCSizes == %s\n====\n' % tset(sizes, False)
     cfg  = ('CONSTANTS\n Groups <- MCGroups\n SchemasOf <- MCSchemasOf\n BulkSizes <- MCSizes\n'
-            ' PrintCases = %s\n' % tbool(print_cases))
+            ' SchemeOf <- MCSchemeOf\n PsijExecutors <- MCPsij\n LauncherSets <- MCLauncherSets\n'
+            ' SizeIds = {1, 2, 3}\n PrintCases = %s\n' % tbool(print_cases))
     for d in BULK_DEVS:
         cfg += ' %s = %s\n' % (d, tbool(d in devs))
     cfg += 'SPECIFICATION Spec\nCHECK_DEADLOCK FALSE\n'
@@ -114,8 +136,39 @@ def bulk_files(groups, schemas_of, sizes, devs=(), print_cases=False, invariants
 
 
 def dom_constants(dom):
-    return ('DomRM = %s\n DomLM = %s\n DomSched = %s\n DomExec = %s\n DomAgent = %s\n'
-            % tuple(tset(dom[k]) for k in ('rm', 'lm', 'sched', 'exec', 'agent')))
+    return ('DomRM = %s\n DomLM = %s\n DomSched = %s\n DomExec = %s\n DomAgent = %s\n PsijExecutors = %s\n'
+            % (tuple(tset(dom[k]) for k in ('rm', 'lm', 'sched', 'exec', 'agent')) + (tset(R.PSIJ_EXECUTORS),)))
+
+
+def pattern(xs):
+    '''(a, b, a) -> (1, 2, 1)'''
+    seen = []
+    for x in xs:
+        if x not in seen:
+            seen.append(x)
+    return tuple(seen.index(x) + 1 for x in xs)
+
+
+def case_class(case):
+    '''class of a TLC-chosen case (spec, fail, sizes, lset, picks, bucket of each pilot).  Nothing
+       refused: how the pilots fall into buckets, which of them are of equal size, the launchers
+       installed and picked; a refused bucket: which one, and the launcher it went to'''
+    spec, fail, sizes, lset, picks, bks = case
+    if not fail:
+        return ('sized', pattern(spec), sizes, lset, tuple(sorted(set(picks))))
+    return ('refused', pattern(spec), fail, lset, picks[bks.index(fail)])
+
+
+def select_cases(cases, n, seed):
+    '''one case of every class (seeded choice), then a seeded sample up to n'''
+    rng, classes = random.Random(seed), {}
+    for c in sorted(cases):
+        classes.setdefault(case_class(c), []).append(c)
+    chosen = [rng.choice(classes[k]) for k in sorted(classes)]
+    rest   = sorted(set(cases) - set(chosen))
+    if len(chosen) < n and rest:
+        chosen += rng.sample(rest, min(len(rest), n - len(chosen)))
+    return chosen, len(classes)
 
 
 # ------------------------------------------------------------------------------
@@ -154,11 +207,20 @@ def report(chk, traces, res, note):
             elif kind == 'bulk':
                 spec = [(p['plat'], p['schema']) for p in tr['pilots']]
                 mixed = len(set(sc for _, sc in spec)) > 1
-                chk.violation(clause, 'bulk of pilots naming %s' % ('different access schemas' if mixed
-                                                                   else 'one access schema'),
-                              'real work() on bulk %s (failing bucket %d) violates %s'
-                              % (spec, tr['fail'], clause),
+                cls = 'bulk of pilots naming %s' % ('different access schemas' if mixed else 'one access schema')
+                if clause.split('.')[1].startswith(('Job', 'Launcher')):
+                    # the launcher side: which launcher, alone in its bucket or not
+                    pid  = ev.get('pid') or ev.get('tpid')
+                    mate = [p for p in tr['pilots'] if p['pid'] == pid]
+                    n    = len([p for p in tr['pilots'] if mate and p['bucket'] == mate[0]['bucket']])
+                    cls  = 'launcher %s, %s' % (ev.get('by', 'any'),
+                                                'several pilots in the bucket' if n > 1 else 'any bucket')
+                chk.violation(clause, cls,
+                              'real work() on bulk %s sizes %s launchers %s (failing bucket %d) violates %s: %s'
+                              % (spec, tr.get('sizes'), tr.get('lset'), tr['fail'], clause,
+                                 {k: v for k, v in ev.items() if k not in ('plat', 'size')}),
                               {'rig': 'sizing', 'kind': 'bulk', 'spec': spec, 'fail': tr['fail'],
+                               'sizes': tr.get('sizes'), 'lset': tr.get('lset'), 'seed': tr.get('seed', 0),
                                'errs': errs, 'events': [{k: v for k, v in e.items()
                                                          if k not in ('plat', 'jd', 'agent', 'size')}
                                                         for e in tr['events']]})
@@ -279,35 +341,55 @@ def run(chk, tier, seed):
         mixed = [c for c in MIXED if c in okp]
         if len(mixed) < 4:
             mixed = (mixed + [c for c in okp if c[1]])[:4]
-        groups = [mixed[:4] if quick else mixed]
+        groups = [mixed[:4] if quick else mixed[:5]]
         if not quick:     # each platform with several schemas: all of them (and none) in one bulk
             for n in sorted(schemas_of):
                 if len(schemas_of[n]) > 1:
                     groups.append([(n, '')] + [(n, sc) for sc in schemas_of[n]][:3])
         sub = {n: schemas_of[n] for g in groups for n, _ in g}
+        scheme_of = {c: rig.expected_endpoints(*c)[0].split(':')[0].split('+') for g in groups for c in g}
         r3 = tlc.run('Sizing', 'MCB', 'MCB.cfg', workers=w, timeout=900,
-                     extra_files=bulk_files(groups, sub, [2, 3], print_cases=True))
+                     extra_files=bulk_files(groups, sub, [1, 2, 3], scheme_of, print_cases=True))
         chk.add_tlc(r3, 'exhaustive:bulk')
         if not r3.ok:
             raise Machinery('design model SizingBulk violates %s with all deviations off:\n%s'
                             % (r3.violated, r3.trace[:3000]))
-        bulks = sorted(set((tuple(tuple(c) for c in v[1]), v[2])
+        cases = sorted(set((tuple(tuple(c) for c in v[1]), v[2], tuple(v[3]), tuple(v[4]), tuple(v[5]),
+                            tuple(v[6]))
                            for v in (tlc.parse_value(t) for t in tlc.extract_tuples(r3.out, 'BULK'))))
-        if not bulks:
+        if not cases:
             raise Machinery('SizingBulk printed no bulks')
         if not quick:
-            for dev, inv in [('DevStaleSchema', 'InvSchemaOfPilot'), ('DevFailAll', 'InvLaunchFailureLocal')]:
+            for dev, inv in [('DevStaleSchema', 'InvSchemaOfPilot'), ('DevFailAll', 'InvLaunchFailureLocal'),
+                             ('DevSpecFromFirstPilot', 'InvJobSizedPerPilot'),
+                             ('DevLauncherPerResource', 'InvLauncherCan')]:
                 r4 = tlc.run('Sizing', 'MCB', 'MCB.cfg', workers=w, timeout=600,
-                             extra_files=bulk_files(groups[:1], sub, [2, 3], devs=[dev], invariants=[inv]))
+                             extra_files=bulk_files(groups[:1], sub, [1, 2, 3], scheme_of, devs=[dev],
+                                                    invariants=[inv]))
                 chk.add_tlc(r4, 'deviation:' + dev)
                 if r4.ok or r4.violated != inv:
                     raise Machinery('deviation %s not detected by the model (got %s)' % (dev, r4.violated))
                 chk.notes.append('deviation %s breaks %s in the design model' % (dev, inv))
-        for spec, fail in bulks:
-            traces.append(('bulk', (spec, fail), rig.bulk([tuple(c) for c in spec], fail)))
-            chk.nontrivial.add(('bulk', len(set(spec)), len(set(sc for _, sc in spec)), fail > 0,
-                                spec[-1][1] == spec[0][1]))
-        chk.notes.append('%d bulks of 2-3 pilots through the real work()' % len(bulks))
+        chosen, nclasses = select_cases(cases, 260 if quick else 4000, seed)
+        for k, case in enumerate(chosen):
+            spec, fail, sizes, lset = case[:4]
+            traces.append(('bulk', case, rig.bulk(spec, fail, sizes, lset, seed=seed * 100003 + k)))
+            chk.nontrivial.add(('bulk',) + case_class(case))
+        nogpu = jobs = 0
+        for kind, _, tr in traces:
+            if kind == 'bulk':
+                own = {e['pid']: e['jd'] for e in tr['events'] if e['ev'] == 'BPrepared'}
+                for e in tr['events']:
+                    if e['ev'] == 'Job':
+                        jobs += 1
+                        if e['by'] == 'PSI_J' and own.get(e['pid'], {}).get('gpus', 0) > 0 and not e['req']['gpus']:
+                            nogpu += 1
+        chk.notes.append('%d jobs reached the batch system stand-ins; observation: %d PSI/J jobs of pilots with GPUs '
+                         'carry no GPU request (ResourceSpecV1 is given node and process count only; whole nodes '
+                         'are requested, so C17 holds)' % (jobs, nogpu))
+        chk.notes.append('%d of %d TLC-chosen bulks of 1-3 pilots (%d classes: bucket pattern x launchers '
+                         'installed / picked x size pattern or refused bucket) through the real work() and the real '
+                         'PSI/J / SAGA launchers' % (len(chosen), len(cases), nclasses))
         chk.evaluations += sum(len(t[2]['events']) for t in traces)
     finally:
         rig.close()
@@ -339,8 +421,15 @@ def run(chk, tier, seed):
         'agent resource manager loop: faked allocation of exactly the requested nodes (Slurm node list, LSF '
         'host file with a batch node, PBSPro vnodes / node file, Fork virtual nodes), platform SMT only '
         '(no $RADICAL_SMT override); a Fork platform without fake_resources is looked at for one node only',
-        'work(): staging, tar and ln call-outs and the job submission are recorders; the submission of '
-        'one TLC-chosen bucket raises; expected endpoints are read from the shipped schema the pilot names']
+        'work(): staging, tar and ln call-outs are recorders; expected endpoints are read from the shipped '
+        'schema the pilot names',
+        'launchers: the real PMGRLaunchingComponent.__init__ (component base constructor stubbed) builds the '
+        'real PilotLauncherPSIJ / PilotLauncherSAGA with the optional modules of the case installed; psij and '
+        'radical.saga are recording stand-ins with the classes / signatures of psij 0.9 and radical.saga; a job '
+        'counts as requested what the job object holds when it reaches JobExecutor.submit / Container.run; the '
+        'batch system refuses the first job of one TLC-chosen bucket',
+        'what a launcher can carry to the batch system is taken as designed: PSI/J node and process count '
+        '(no GPU count), SAGA total cpu / gpu count and processes per host (node count left to SAGA)']
 
 
 def replay(chk, obj):
@@ -354,7 +443,8 @@ def replay(chk, obj):
             traces = [('resolve', None, {'kind': 'resolve', 'name': obj['name'], 'schema': obj['schema'],
                                          'events': events})]
         elif obj['kind'] == 'bulk':
-            traces = [('bulk', None, rig.bulk([tuple(c) for c in obj['spec']], obj['fail']))]
+            traces = [('bulk', None, rig.bulk([tuple(c) for c in obj['spec']], obj['fail'], obj.get('sizes'),
+                                              obj.get('lset') or R.LAUNCHER_ORDER, seed=obj.get('seed', 0)))]
         else:
             rcfg = None
             for n, sch in rig.pairs():
